@@ -357,7 +357,11 @@ func genC09(c *Ctx) {
 				p := st.objs[src]
 				var m tak.Move
 				ms := p.AllMoves(nil)
-				if c.R.Chance(1, 8) || len(ms) == 0 {
+				if c.R.Chance(1, 12) {
+					// the engine's null move (tak.Pass): a copy with the other side to move
+					m = tak.Move{Type: tak.Pass}
+					c.Count("op.pass")
+				} else if c.R.Chance(1, 8) || len(ms) == 0 {
 					m = rawMove(c.R, p.Size())
 				} else {
 					m = pickBiased(c.R, p, ms)
